@@ -203,7 +203,7 @@ PROPS = {
             "rule": "boolean ops / RectClip / polygon offsetting / PointInPolygon / Area64 on a small base input and on the "
                     "same input translated anywhere within +-2^52 and scaled by factors up to MaxCoord/extent (2^61); "
                     "non-trivial: non-empty base result"},
-    "C18": {"run": run_C18,
+    "C18": {"run": run_C18, "race": True,
             "rule": "every interleaving (enumerated by TLC from Sched.tla) of the segments of 2-3 concurrent long-running calls "
                     "(engine64 / engineD executions cut at scan-beams, ClipperOffset at paths, RectClip64 at paths) on shared "
                     "read-only inputs, forced through blocking gate hooks in a -race build, plus free-running stress of 16-64 "
